@@ -97,6 +97,7 @@ bool aws_host_utils_is_ipv6(struct aws_byte_cursor host, bool is_uri_encoded) {
 
     uint8_t group_count = 1; /* string itself is the first group and then every new : we encounter is new group */
     uint8_t digit_count = 0;
+    uint8_t written_groups = 0; /* groups that have at least one digit */
     bool has_double_colon = false;
 
     for (size_t i = 0; i < substr.len; ++i) {
@@ -112,6 +113,9 @@ bool aws_host_utils_is_ipv6(struct aws_byte_cursor host, bool is_uri_encoded) {
                 --group_count; /* avoid double counting groups */
             }
         } else {
+            if (digit_count == 0) {
+                ++written_groups;
+            }
             ++digit_count;
         }
 
@@ -137,5 +141,6 @@ bool aws_host_utils_is_ipv6(struct aws_byte_cursor host, bool is_uri_encoded) {
         }
     }
 
-    return has_double_colon ? group_count <= 8 : group_count == 8;
+    /* a double colon stands for at least one group, so it cannot appear next to eight written ones */
+    return has_double_colon ? (group_count <= 8 && written_groups < 8) : group_count == 8;
 }
